@@ -10,6 +10,7 @@ import (
 	"strings"
 	"sync"
 	"sync/atomic"
+	"time"
 )
 
 type thread struct {
@@ -31,7 +32,10 @@ type Exec struct {
 	Choices []int
 	Steps   int
 	Trace   []string
-	Err     string // deadlock / divergence / step cap
+	Err     string // deadlock / divergence / step cap / stuck
+	// Stuck: the running thread did not come back to the scheduler (blocked on a primitive the overlay does not shim, or
+	// spinning without a scheduling point). Its goroutine cannot be unwound; exploration of this scenario stops.
+	Stuck   bool
 	Panics  []string
 	aborted atomic.Bool
 	wg      sync.WaitGroup
@@ -73,6 +77,9 @@ func (e *Exec) Point(what string, enabled func() bool) {
 func (e *Exec) Step() int { return e.Steps }
 
 const maxSteps = 20000
+
+// stuckAfter bounds the real time one thread may run between two scheduling points.
+const stuckAfter = 20 * time.Second
 
 // Run executes the thread bodies under the schedule given by prefix (then choice 0 everywhere).
 func Run(bodies []func(), prefix []int) *Exec {
@@ -161,7 +168,14 @@ func Run(bodies []func(), prefix []int) *Exec {
 		e.running = pick
 		last = pick
 		pick.resume <- struct{}{}
-		<-e.yield
+		select {
+		case <-e.yield:
+		case <-time.After(stuckAfter):
+			e.Err = fmt.Sprintf("stuck: thread %d did not reach another scheduling point within %v after %s (blocked on a primitive that is not a scheduling point, or looping)", pick.id, stuckAfter, pick.what)
+			e.Stuck = true
+			e.aborted.Store(true)
+			return e
+		}
 		e.running = nil
 	}
 }
@@ -202,7 +216,11 @@ type Stats struct {
 func Explore(mk func() []func(), bound int, check func(e *Exec), stop func() bool) Stats {
 	st := Stats{Bound: bound, Complete: true}
 	var rec func(prefix []int)
+	stuck := false
 	rec = func(prefix []int) {
+		if stuck {
+			return
+		}
 		if stop != nil && stop() {
 			st.Complete = false
 			return
@@ -211,6 +229,11 @@ func Explore(mk func() []func(), bound int, check func(e *Exec), stop func() boo
 		st.Executions++
 		st.Points += int64(len(x.Points))
 		check(x)
+		if x.Stuck {
+			st.Complete = false
+			stuck = true
+			return
+		}
 		if x.Err != "" && strings.HasPrefix(x.Err, "replay divergence") {
 			return
 		}
